@@ -328,11 +328,14 @@ struct Reference {
 pub struct Env {
     cache: RefCell<HashMap<(Db, String), Reference>>,
     base_state: String,
+    /// long-lived machine that only ever runs pure, completely consumed `X = t` / `member/2`
+    /// queries (their answers are additionally checked against the term model)
+    pure_ref: RefCell<Option<Machine>>,
 }
 
 pub fn mk_env() -> Env {
     let m = new_machine();
-    Env { cache: RefCell::new(HashMap::new()), base_state: control_state(&m) }
+    Env { cache: RefCell::new(HashMap::new()), base_state: control_state(&m), pure_ref: RefCell::new(Some(m)) }
 }
 
 fn reference(env: &Env, db: &Db, q: &Q) -> Reference {
@@ -340,6 +343,20 @@ fn reference(env: &Env, db: &Db, q: &Q) -> Reference {
     let key_db = if q.reads_db() { db.clone() } else { Db::default() };
     if let Some(r) = env.cache.borrow().get(&(key_db.clone(), text.clone())) {
         return r.clone();
+    }
+    if matches!(q, Q::Unify(_) | Q::Member(_)) {
+        let mut slot = env.pure_ref.borrow_mut();
+        let mut m = slot.take().unwrap_or_else(new_machine);
+        let run = run_query(&mut m, &text, CAP + 1);
+        let capped = run.items.len() > CAP;
+        let mut items = run.items;
+        items.truncate(CAP);
+        if run.alive && control_state(&m) == env.base_state {
+            *slot = Some(m);
+        } else if !run.alive {
+            std::mem::forget(m);
+        }
+        return Reference { items, capped, prolog: None, note: None };
     }
     let mut m = new_machine();
     let mut note = None;
